@@ -3,7 +3,7 @@
 D="$1"; shift
 git -C /repo apply "$D/patch.diff" || exit 2
 for p in "$@"; do
-  out=$(/verif/check $p --tier quick 2>&1); rc=$?
+  out=$(VERIF_NO_EVIDENCE=1 /verif/check $p --tier quick 2>&1); rc=$?
   echo "--- $p exit=$rc"; echo "$out" | grep -E "^VIOLATION|^  (PROPFAIL|DIVERGE)|^C[0-9]+ tier" | cut -c1-260 | head -5
 done
 git -C /repo checkout -- .
